@@ -341,18 +341,18 @@ def run_lowerer(ck, events):
             op, d = e.get("op"), e.get("d") or {}
             if op == "window_set":
                 w = json.dumps(d["window"], sort_keys=True)
-                seq.append((0, toks.setdefault(w, len(toks) + 1), False, []))
+                seq.append((0, toks.setdefault(w, len(toks) + 1), False, ()))
                 cur_set = True
             elif op == "window_take":
-                seq.append((1, 0, False, []))
+                seq.append((1, 0, False, ()))
                 cur_set = False
             elif op == "window_reset":
-                seq.append((2, 0, False, []))
+                seq.append((2, 0, False, ()))
                 cur_set = False
             elif op == "declare" and d.get("how") == "new":
                 c = d["compute"]
                 w = c.get("window")
-                got = [] if w is None else [toks.get(json.dumps(w, sort_keys=True), 0)]
+                got = () if w is None else (toks.get(json.dumps(w, sort_keys=True), 0),)
                 needs = bool(d.get("needs_window"))
                 seq.append((3, 0, needs, got))
                 if needs and w is None and not c.get("is_aggregation"):
